@@ -26,10 +26,12 @@ LL2C_FLAGS = ['--divrem-narrow']
 
 TYPES = [('u8', 'uint8_t', 0, 8), ('i8', 'int8_t', 1, 8), ('u16', 'uint16_t', 0, 16), ('i16', 'int16_t', 1, 16),
          ('u32', 'uint32_t', 0, 32), ('i32', 'int32_t', 1, 32), ('u64', 'uint64_t', 0, 64), ('i64', 'int64_t', 1, 64)]
-UNSIGNED_ONLY = ['popcount', 'popcount_fb', 'countl_zero', 'countl_one', 'countr_zero', 'countr_one', 'bit_width', 'bit_ceil', 'bit_floor',
-                 'has_single_bit', 'rotl', 'rotr', 'set_bit', 'set_bit_v', 'reset_bit', 'flip_bit', 'test_bit', 'bit_tpl']
-ALL_TYPES = ['byteswap', 'add_sat', 'add_sat_fb', 'div_sat', 'idiv', 'midpoint', 'midpoint_ptr', 'abs', 'ipow', 'ipow_tpl', 'ilog2', 'gcd_diag', 'lcm_diag']
-HARD = {'div_sat', 'idiv', 'ipow', 'lcm_diag'}   # division / multiplication circuits: kissat
+BYNAME = {t[0]: t for t in TYPES}
+BITOPS = ['popcount', 'popcount_fb', 'countl_zero', 'countl_one', 'countr_zero', 'countr_one', 'bit_width', 'bit_ceil', 'bit_floor',
+          'has_single_bit', 'rotl', 'rotr', 'set_bit', 'set_bit_v', 'reset_bit', 'flip_bit', 'test_bit', 'bit_tpl']          # unsigned types only
+PLAIN = ['byteswap', 'add_sat', 'add_sat_fb', 'midpoint', 'midpoint_ptr', 'abs', 'ipow_tpl', 'ilog2']                           # all types
+EUCLID_SLICES = ['gcd_diag', 'gcd_unit', 'gcd_pow2', 'lcm_unit', 'lcm_zero', 'lcm_pow2']                                        # all types, <= 4 Euclid steps
+SIGNS = ['pp', 'np', 'pn', 'nn']
 
 
 def open_ids():
@@ -39,43 +41,65 @@ def open_ids():
         if os.path.exists(p):
             d = json.load(open(p))
             for k in (d.get('open', []) if isinstance(d, dict) else d):
-                ids.add(k['id'])
+                if isinstance(k, dict) and 'id' in k:
+                    ids.add(k['id'])
     return ids
 
 
 def queries(tier, prop='C14'):
     ub = prop == 'C02'
-    emax = 8 if tier == 'quick' else 16
+    quick = tier == 'quick'
+    emax = 8 if quick else 16
     out = []
 
-    def add(entry, t, unwind, solver='minisat', budget=120, extra=None, unwindset=None):
+    def add(entry, t, unwind, solver=None, budget=120, extra=None):
         n, ty, s, w = t
         cfg = {'T': ty, 'N': n, 'S': s, 'W': w, 'EMAX': emax}
         cfg.update(extra or {})
-        q = dict(entry='q_' + entry, cfg=cfg, unwind=unwind, solver=solver, budget=budget, ub=ub, nofunc=ub)
-        if unwindset:
-            q['unwindset'] = unwindset
-        out.append(q)
+        out.append(dict(entry='q_' + entry, cfg=cfg, unwind=unwind, solver=solver or ('kissat' if w >= 32 else 'minisat'), budget=budget, ub=ub, nofunc=ub))
 
     for t in TYPES:
         n, ty, s, w = t
-        names = ALL_TYPES + (UNSIGNED_ONLY if not s else []) + (['byteswap_fb'] if (not s and w > 8) else [])
-        for e in names:
-            unwind = max(w, 32) + 2   # libstdc++ <bit> uses the 32-bit builtins for the promoted types: ll_ctlz_32 etc. loop 32 times
-            if e == 'ipow':
-                unwind = emax + 2
-            add(e, t, unwind, solver='kissat' if w >= 32 else 'minisat')
+        for e in PLAIN:
+            add(e, t, w + 2)
+        if not s:
+            for e in BITOPS:
+                add(e, t, max(w, 32) + 2)   # libstdc++ <bit> uses the 32-bit builtins for the promoted types: ll_ctlz_32 etc. loop 32 times
+            if w > 8:
+                add('byteswap_fb', t, 4)
+        for e in EUCLID_SLICES:
+            add(e, t, 6)
+        if w == 8 or (w == 16 and not quick):
+            add('lcm_diag', t, 6, solver='kissat', budget=120 if w == 8 else 900)   # (x * x) / x: not decided in 100 s beyond 8 bits (measured)
+        # quotients: multiplicative definition, kissat; 32/64-bit signed: one query per sign case
+        for e in ('div_sat', 'idiv'):
+            if not s or w <= 16:
+                add(e, t, 4, solver='kissat')
+            else:
+                for sg in SIGNS:
+                    hard = w == 64 and sg in ('np', 'pn')   # measured 680 s / 1290 s (loaded machine): thorough tier only
+                    if hard and quick:
+                        continue
+                    add('%s_%s' % (e, sg), t, 4, solver='kissat', budget=3000 if hard else 120)
+        # ipow, symbolic base and exponent: two multiplier chains; z3 on the exported VC for 32/64 bits (SAT back ends do not finish)
+        add('ipow', t, emax + 2, solver='minisat' if w < 32 else 'z3', budget=120 if quick else 600)
+        add('ipow_wit', t, emax + 2, solver='minisat' if w < 32 else 'kissat')
         for (nu, tyu, su, wu) in TYPES:
             for e in ('cmp', 'in_range', 'sat_cast'):
                 add('%s_%s' % (e, nu), t, 4)
-    # gcd / lcm, all pairs of values: 8 x 8 and 8 x 16 bit type pairs
-    small = [t for t in TYPES if t[3] == 8]
-    mid = [t for t in TYPES if t[3] == 16]
-    for t in small + mid:
-        for u in small + (mid if t[3] == 8 else []):
-            bits = t[3] + u[3]
-            for e in ('gcd', 'lcm'):
-                add('%s_%s' % (e, u[0]), t, 20 if bits == 16 else 28, solver='kissat')
+    # gcd / lcm over all pairs of values (Euclid: at most 12 remainder steps for 8-bit operands, one more when the first operand is wider)
+    def pair(e, tn, un, unwind, budget=120):
+        if ub and BYNAME[tn][2] != BYNAME[un][2]:
+            return   # C02: mixed signedness is inside the C14 gcd regions (can loop forever, which is not UB); checked under C14 only
+        add('%s_%s' % (e, un), BYNAME[tn], unwind, solver='kissat', budget=budget)
+    for tn, un in (('u8', 'u8'), ('i8', 'i8')):
+        pair('gcd', tn, un, 15); pair('lcm', tn, un, 15); pair('gcd_std', tn, un, 20); pair('lcm_std', tn, un, 20)
+    for tn, un in (('u8', 'i8'), ('i8', 'u8')):
+        pair('gcd', tn, un, 15); pair('lcm', tn, un, 15)
+    for tn, un in (('u8', 'u16'), ('u16', 'u8')):
+        pair('gcd', tn, un, 18)
+        if not quick:
+            pair('lcm', tn, un, 18, budget=900)
     add('byte_order8', TYPES[0], 4)
     add('byte_order16', TYPES[0], 4)
     add('byte_order32', TYPES[0], 6)
